@@ -13,5 +13,58 @@ META = {
 }
 
 
+def close_replace_case(via):
+    """A REAL force-platform data block is stored; it is then replaced (setter /
+    replace_block) by a block that differs from it in one sample by less than numpy's
+    default tolerance.  The assignment succeeds, so the file must hold the new block."""
+    def h(I):
+        from . import blocks as B
+        from symtdf.runner import Instance  # noqa: F401
+        fs = I.fs()
+        Tdf = I.mod("basictdf").Tdf
+        sh = {"n": 1, "plats": 1}
+        base = I.farray("a.p0.f", (1, 3))
+        fa = base.copy()
+        fb = base.copy()
+        fa[0, 2] = 500.0010070800781  # float32(500.001)
+        fb[0, 2] = 500.0
+        a = B.build(I, "fpdata", sh, "a", ov={"a.p0.f": fa})
+        b = B.build(I, "fpdata", sh, "a", ov={"a.p0.f": fb})
+        want = B.encode(I, b)
+        spec = {"n": 2, "version": 1, "hdates": [0, 0, 0], "slots": [{"type": 0, "format": 0, "size": 0, "dates": [0, 0, 0], "comment": "x"} for _ in range(2)]}
+        fs.create("f.tdf", spec)
+        with Tdf(fs.path("f.tdf")).allow_write() as t:
+            t.add_block(a, "c")
+            try:
+                if via == "setter":
+                    t.force_platforms_data = b
+                elif via == "replace":
+                    t.replace_block(b)
+                else:
+                    t.replace_block(b, "c")
+                exc = None
+            except Exception as e:  # noqa: BLE001
+                exc = e
+            I.observe("exc", type(exc).__name__ if exc else None)
+            I.prove("C11.setter_on_a_present_type_replaces_the_block.accepted", exc is None, f"{type(exc).__name__ if exc else ''}")
+            back = t.force_platforms_data
+        obs = fs.obs("f.tdf")
+        Pm = obs.parse()
+        live = [e for e in Pm["entries"] if e["type"] != 0]
+        I.prove("C11.at_most_one_block_per_type", len(live) == 1)
+        if len(live) == 1 and exc is None:
+            e = live[0]
+            stored = obs.range(e["offset"], len(want))
+            I.observe("stored", stored)
+            I.prove("C11.setter_on_a_present_type_replaces_the_block.bytes_on_disk_are_the_new_block", I.and_(e["size"] == len(want), stored == want), via)
+            I.prove("C11.setter_on_a_present_type_replaces_the_block.getter_returns_the_new_block", B.encode(I, back) == want, via)
+        I.goal("done")
+    return h
+
+
 def instances(tier):
-    return cstep.instances_for("C11", tier)
+    from symtdf.runner import Instance
+    out = cstep.instances_for("C11", tier)
+    for via in ("setter", "replace", "replace_same_comment"):
+        out.append(Instance(f"close_block.{via}", close_replace_case(via), goals=["done"], cost=20))
+    return out
